@@ -932,8 +932,14 @@ func (c *Ctx) transferSurvivesReads(rule string) {
 	R.Rules[rule] = "the expiry sweep removes a pending transfer only when the current time is later than its creation time plus a positive limit (normalised from the After/Before/Add forms): a transfer whose packets arrive in separate reads survives between them"
 	n := 0
 	for _, fn := range c.RepoFuncs("service") {
-		if len(storesToFieldAny(fn, "AgainPackageList")) > 0 {
-			continue // the re-request builder's idle test (C14)
+		builds := false
+		for _, ff := range c.familyOf(fn) {
+			if len(storesToFieldAny(ff, "AgainPackageList")) > 0 {
+				builds = true
+			}
+		}
+		if builds {
+			continue // the re-request builder's idle test (C14), wherever the 0x8003 itself is put together
 		}
 		for _, tt := range findTimeTests(fn) {
 			n++
